@@ -78,6 +78,8 @@ func run(c *checks.Ctx) (code int) {
 		err = checks.RunC11(c)
 	case "C09":
 		err = checks.RunC09(c)
+	case "C03":
+		err = checks.RunC03(c)
 	default:
 		fmt.Println("unknown property", c.Prop)
 		return checks.ExitHarness
